@@ -70,6 +70,12 @@ func Send(chanGlob string) M { return M{kind: flow.SSend, term: chanGlob, desc: 
 func Recv(chanGlob string) M { return M{kind: flow.SRecv, term: chanGlob, desc: "receive from " + chanGlob} }
 func Return() M             { return M{kind: flow.SReturn, desc: "return"} }
 
+// Edge is a pseudo-site usable as an ORDER predecessor: a branch edge whose condition (as evaluated
+// when the branch was taken) implies the formula.
+func Edge(formula string) M { return M{kind: edgeKind, term: formula, desc: "branch where " + formula} }
+
+const edgeKind flow.SiteKind = 100
+
 func (m M) Where(desc string, p func(u *Unit, s *flow.Site) bool) M {
 	old := m.pred
 	m.pred = func(u *Unit, s *flow.Site) bool { return (old == nil || old(u, s)) && p(u, s) }
